@@ -2321,9 +2321,9 @@ class Generator:
         returning = self.sql(expression, "returning")
 
         if self.RETURNING_END:
-            expression_sql = f"{expression_sql}{on_conflict}{default_values}{returning}"
+            expression_sql = f"{expression_sql}{default_values}{on_conflict}{returning}"
         else:
-            expression_sql = f"{returning}{expression_sql}{on_conflict}"
+            expression_sql = f"{returning}{expression_sql}{default_values}{on_conflict}"
 
         partition_by = self.sql(expression, "partition")
         partition_by = f" {partition_by}" if partition_by else ""
